@@ -414,12 +414,8 @@ def check_shared_flags(ctx, rep, rule='C11.S', only=None):
                     for flag in flag_of_test(node.test):
                         body_stores = set()
                         for st in node.body:
-                            for x in ast.walk(st):
-                                if isinstance(x, (ast.Assign, ast.AugAssign)):
-                                    for t in (x.targets if isinstance(x, ast.Assign) else [x.target]):
-                                        a = self_attr(t)
-                                        if a and not ('need' in a and 'update' in a):
-                                            body_stores.add(a)
+                            # (stores made by the methods the block calls count as well: `if self.F: self.update_X()`)
+                            body_stores |= {a for a in stores_of(st) if not ('need' in a and 'update' in a)}
                         # only caches that this method also serves (reads outside the guarded block, e.g. `return self._X`) rely on the flag
                         served = {self_attr(x) for x in ast.walk(fn) if isinstance(x, ast.Attribute) and self_attr(x) and isinstance(x.ctx, ast.Load)
                                   and not any(x is y for st in node.body for y in ast.walk(st))}
